@@ -145,8 +145,10 @@ def insertStep [Add K] [Mul K] (post : K → K) (w : K) (acc : Option (Arr K)) (
 samples or `|.|^2` (`nsq`), with weight `weight` or the default 1 (`one`) -/
 def viewRun [Add K] [Mul K] [Zero K] (wr : Gen.ViewWiring) (one : K) (nsq : K → K) (data : List (Fld K)) (out : Arr K)
     (weight : K) : Option (Arr K) :=
+  -- `out = np.zeros(self.shape, …)` (wiring `zeros`) or the caller's array
   (if wr.reduce then reduce data else data.map some).foldl
-    (insertStep (if wr.intensity then nsq else id) (if wr.weighted then weight else one)) (some out)
+    (insertStep (if wr.intensity then nsq else id) (if wr.weighted then weight else one))
+    (some (if wr.zeros then zerosArr out.s0 out.s1 else out))
 
 /-- `Wavefront.field` for a 2-D `shape` (never fails: no `reduce`) -/
 def wfField [Add K] [Mul K] [Zero K] (one : K) (s0 s1 : Int) (data : List (Fld K)) : Arr K :=
